@@ -298,6 +298,37 @@ def reuse_phase(ctx, spec, structure, pattern, which):
         oracle_c02(ctx, spec2, res, label="after in-place edits")
 
 
+def relisted_phase(ctx, spec, structure, which):
+    """The same structure OBJECT searched once more for the same pattern with its atoms listed in another order (no hints): whatever
+    an earlier search may have remembered on the object - a choice of numbering, an index into a list of candidates - belongs to
+    the earlier pattern; the oracles run against the re-listed pattern."""
+    import copy
+    import random as _r
+    from . import worlds
+    n = len(spec["pattern"]["elements"])
+    if n < 3:
+        return
+    perm = list(range(n))
+    _r.Random(spec["seed"]).shuffle(perm)
+    if perm == list(range(n)):
+        perm = perm[1:] + perm[:1]
+    spec3 = copy.deepcopy(spec)
+    spec3["pattern"]["elements"] = [spec["pattern"]["elements"][i] for i in perm]
+    spec3["pattern"]["positions"] = [spec["pattern"]["positions"][i] for i in perm]
+    spec3["hints"] = None
+    for p in spec3["planted"]:
+        if len(p["indices"]) == n:
+            p["indices"] = [p["indices"][i] for i in perm]
+    ctx.count("relisted_pattern_phases")
+    for script in spec["scripts"][:2]:
+        ctx.rng.reset(script)
+        res = call_find(ctx, structure, worlds.build_pattern(spec3["pattern"]), spec["atol"], None)
+        if which in ("c01", "both"):
+            oracle_c01(ctx, spec3, res, label="pattern re-listed, same object")
+        if which in ("c02", "both"):
+            oracle_c02(ctx, spec3, res, label="pattern re-listed, same object", refgroups=None)
+
+
 def warmup(ctx, spec, structure):
     """An earlier search with a SMALLER pattern on the same object (anything cached per object must not shrink what a later,
     larger search sees)."""
